@@ -410,6 +410,50 @@ theorem saturateCast_eq (To From : ITy) (hTo : 1 ≤ To.w) (hFrom : 1 ≤ From.w
 example : saturateCast ⟨8, true⟩ ⟨64, false⟩ (2^64 - 1) = .ok (Spec.clampTo (-128) 127 (2^64 - 1)) :=
   saturateCast_eq ⟨8, true⟩ ⟨64, false⟩ (by decide) (by decide) _ (by decide)
 
+/-! ## test_bit, ipow<2> -/
+
+/-- `test_bit(word, pos)` for `pos < digits`: bit `pos` of `word` -/
+theorem testBit_eq (w word pos : Nat) (hw31 : w < 2^31) (hpos : pos < w) :
+    testBit w word pos = .ok (Spec.testBit word pos) := by
+  unfold testBit Spec.testBit
+  rw [bitPosPre_ok w pos hw31 hpos, oneShl_ok w pos hpos]
+  simp only [Bool.not_true, Bool.false_eq_true, if_false, ok_bind]
+  have hlt : word &&& 2^pos < 2^w :=
+    Nat.lt_of_le_of_lt Nat.and_le_right (Nat.pow_lt_pow_right (by decide) hpos)
+  rw [Nat.mod_eq_of_lt hlt]
+  congr 1
+  have h := and_two_pow_eq_zero word pos
+  rw [Nat.testBit_eq_decide_div_mod_eq] at h
+  by_cases hb : word / 2^pos % 2 = 1
+  · have : ¬ (word &&& 2^pos = 0) := by rw [h]; simp [hb]
+    simp [hb, this]
+  · have : word &&& 2^pos = 0 := by rw [h]; simp [hb]
+    simp [hb, this]
+
+example : testBit 64 (2^63 + 5) 63 = .ok (Spec.testBit (2^63 + 5) 63) := testBit_eq 64 _ 63 (by decide) (by decide)
+
+/-- `ipow<2>(e)`: `1 << e`, for every exponent whose power is representable -/
+theorem ipow2_eq (t : ITy) (hw : 1 ≤ t.w) (e : Int) (he : 0 ≤ e) (hr : t.inR ((2:Int)^e.toNat) = true) :
+    ipow2 t e = .ok (Spec.ipow 2 e.toNat) := by
+  unfold ipow2 Spec.ipow
+  have hP := promote_inR t hw _ hr
+  have hPw := promote_w t hw
+  -- 2^e <= max < 2^w' gives e < w'
+  have hlt : e < t.promote.w := by
+    have hmax := max_lt_pow t.promote hPw
+    rw [inR_iff] at hP
+    have h1 : (2:Int)^e.toNat < 2^t.promote.w := by omega
+    have h2 : (2:Nat)^e.toNat < 2^t.promote.w := by exact_mod_cast h1
+    have := (Nat.pow_lt_pow_iff_right (by decide : 1 < 2)).1 h2
+    omega
+  have hc : (decide (e < 0) || decide (e ≥ (t.promote.w : Int))) = false := by
+    simp; omega
+  simp only [hc, Bool.false_eq_true, if_false]
+  rw [conv_of_inR t.promote hPw _ hP, conv_of_inR t hw _ hr]
+
+
+example : ipow2 ⟨32, true⟩ 30 = .ok (Spec.ipow 2 30) := ipow2_eq ⟨32, true⟩ (by decide) 30 (by decide) (by decide)
+
 /-! ## div_sat, idiv -/
 
 /-- `div_sat`: the truncated quotient clamped to the type; the only quotient that is not representable,
